@@ -106,6 +106,10 @@ theorem shiftLeft_spec {b : Buf} (h : WF b) :
     ∃ b1, shiftLeft b = some b1 ∧ WF b1 ∧ Frame b b1 ∧ b1.rest = b.rest ∧ b1.n - b1.pos = b.n - b.pos := by
   have hp := h.hpos
   unfold shiftLeft
+  by_cases hpin : pinned b = true
+  · rw [if_pos hpin]; exact ⟨b, rfl, h, Frame.refl b, rfl, rfl⟩
+  rw [if_neg hpin]
+  unfold shiftLeft0
   split
   · cases ha : b.anchor with
     | none =>
@@ -135,6 +139,14 @@ theorem grow_spec {b : Buf} (h : WF b) :
     WF (grow b) ∧ Frame b (grow b) ∧ (grow b).rest = b.rest ∧ (grow b).mem = b.mem ∧ (grow b).pos = b.pos
       ∧ (grow b).pagesize = b.pagesize := by
   unfold grow
+  by_cases hpin : pinned b = true
+  · rw [if_pos hpin]
+    unfold growR
+    split
+    · exact ⟨⟨h.hwin, h.hpos, h.hanch, h.hps, h.heof, h.hnofp⟩, ⟨rfl, rfl, rfl, rfl, rfl, Nat.le_refl _⟩, rfl, rfl, rfl, rfl⟩
+    · exact ⟨h, Frame.refl b, rfl, rfl, rfl, rfl⟩
+  rw [if_neg hpin]
+  unfold grow0
   split
   · exact ⟨⟨h.hwin, h.hpos, h.hanch, h.hps, h.heof, h.hnofp⟩, ⟨rfl, rfl, rfl, rfl, rfl, Nat.le_refl _⟩, rfl, rfl, rfl, rfl⟩
   · exact ⟨h, Frame.refl b, rfl, rfl, rfl, rfl⟩
